@@ -48,7 +48,7 @@ def _extra(draw):
         out += ["--comment", draw(_text)]
     if draw(st.integers(0, 4)) == 0:
         for _ in range(draw(st.integers(1, 2))):
-            out += ["-i", draw(st.one_of(gen.plain_names(), st.sampled_from(["*.txt", "tmp*", "cache/", "?", "*.mov"])))]
+            out += ["-i", draw(st.one_of(gen.plain_names().filter(lambda n: not n.startswith("-")), st.sampled_from(["*.txt", "tmp*", "cache/", "?", "*.mov"])))]
     return out
 
 
